@@ -154,16 +154,15 @@ PROVED = {
         "newline is refused, and every static chunk of the emitter (tag, id, class, attribute value, comment, text) reads as the intended HTML; attribute "
         "names only for plain characters (F06).",
  "C05": "the children-slot protocol of the runtime equals lexical scoping for every program of the skeleton language (Runtime/Children.v).",
- "C06": "NO DEADLOCK for every input: every lexer state call emits at most 4 tokens on every cursor (channel holds 64), lifted through every parser "
-        "function to compile_parse. NO PANIC for every input: a cursor invariant (line counters never negative, one more line than the pending string has "
-        "newlines, a rune just read can be given back) is kept by every primitive, every helper and every state function, so none of the ten index and "
-        "slice expressions of lexer.go is ever out of range (the model raises its panic flag exactly there); lifted through pump and parser to "
-        "compile_parse input <> OPanic. THE LEXER NEVER SPINS, for every input: every state function on every cursor sends a token, or leaves fewer bytes in the "
-        "reader, or moves to a state of lower rank (two rank tables, nine levels), so fewer than 9*(bytes left+1) state calls separate two tokens and the "
-        "pump's budget is never used up; the only abnormal outcome of the model left is the parser's own loop budget (PBudget). That the parser loop ends "
-        "within it rests on the correspondence run only: partial. TOTAL WORK OF THE LEXER LINEAR, for every input: every state call, sending tokens or not, shrinks "
-        "the reader or moves down a rank of 46 levels indexed by state and first rune, so the final state is reached within 46*(bytes+1) calls with at most 4 "
-        "tokens each (tokens and tree nodes linear in the input). The fuel of the lexer's inner loops is never used up (more fuel, same result).",
+ "C06": "THE COMPILER TERMINATES, for every input: under budgets that exist only in the model and are linear in the input (9(n+1) state calls per token, "
+        "460(n+1)+2 parser iterations) the model of the parse returns a tree, with or without an error -- no hang, spin, exhausted budget, panic or blocked "
+        "channel (C06_parse_terminates). Ingredients, each a theorem over all inputs, cursors and parser states: every lexer state call sends at most 4 "
+        "tokens (channel holds 64); a cursor invariant keeps the ten index/slice expressions of lexer.go in range; every state call that sends no token "
+        "shrinks the reader or moves down a rank (9 levels); every state call at all shrinks the reader or moves down a second rank (46 levels, indexed by "
+        "state and first rune): total work and token count of the lexer linear; the fuel of the lexer's inner loops is never used up; once the lexer has "
+        "ended its last token is EOF or an error; every parser iteration pulls a token under a non-final look-ahead, pops a frame, or is the last. "
+        "Left to the correspondence run: the executable model's smaller budget for the parser loop (shared by the loops inside the parse methods) is "
+        "never used up; wall-clock time is measured: partial for these two reasons only.",
  "C07": "the writer's line/column counter is the end position of the generated text; every source-map entry points at the place its fragment was written; "
         "character k of a fragment sits where walking k characters from the target leads; end to end for one-line fragments the template position maps to "
         "the generated position holding the same character (byte columns; UTF-16 after non-ASCII is F15).",
